@@ -425,6 +425,8 @@ func checkC03(c *Ctx, r *Report, tier string) {
 	}
 	c03R5(c, r, ro)
 	startNodeRule(c, r, "C03.R6")
+	r.Rule("C03.R7", "local compaction keeps the snapshot's anchor entry: the log is swept up to, not including, the snapshot index, and the sweep collects keys only while index < bound (the anchor is written in the same batch and a later Delete of the same key wins)", 2)
+	walCompactionKeepsAnchor(c, r, "C03.R7")
 }
 
 func c03R2(c *Ctx, r *Report, ro *roles) {
@@ -898,6 +900,8 @@ func checkC05(c *Ctx, r *Report, tier string) {
 		c05R4(c, r, rl, ro)
 	}
 	startNodeRule(c, r, "C05.R5")
+	r.Rule("C05.R8", "the log store never tells raft about entries it does not have: every path from an entry write to a successful return updates (or discards) the cached last index", 3)
+	walCacheFollowsWrites(c, r, "C05.R8")
 	// R7: Step error propagation
 	for _, f := range c.FuncsInPkg("storage/raft") {
 		if !c.isProd(f) {
